@@ -3,7 +3,7 @@
    LR/Automaton_proofs.v about the models LR/Driver.v (ParserState.feed_token) and
    LR/Automaton.v (lalr_analysis.py). *)
 From Coq Require Import List Arith Bool ZArith.
-From LV Require Import Cfg.Grammar LR.Driver LR.Driver_proofs.
+From LV Require Import Cfg.Grammar LR.Driver LR.Driver_proofs LR.Automaton LR.Automaton_proofs LR.Automaton_wf.
 Import ListNotations.
 
 (* "accepts only sentences", for EVERY table in which a reduce by r is only offered in states
@@ -54,3 +54,107 @@ Theorem C02_error_keeps_prefix (tok : Type) (ttype : tok -> nat) (G : grammar) (
   cfg_ok tok ttype G P c /\ exists w1 w2, w = w1 ++ w2 /\ consumed tok (vstack c) = w1.
 Proof. exact (fun W => driver_error_prefix tok ttype G P start W fuel w c). Qed.
 Print Assumptions C02_error_keeps_prefix.
+
+(* ---- the table construction (model of compute_lalr1_states) ---- *)
+
+(* shift/reduce conflicts are resolved as shift: a transition on X always yields the Shift
+   entry of the row, whatever the look-ahead sets contain *)
+Theorem C02_shift_preferred (rules : list rule) (prio : list Z) (A : lr0) (LA : list (nat * nat * nat))
+        (q : nat) (X : symbol) (q' : nat) :
+  trans A q X = Some q' -> assoc_sym X (row rules prio A LA q) = Some (Shift q').
+Proof. exact (shift_preferred rules prio A LA q X q'). Qed.
+Print Assumptions C02_shift_preferred.
+
+(* a Reduce entry stands only where the state has no transition on that terminal, and it is
+   the rule decided for that look-ahead terminal *)
+Theorem C02_reduce_only_without_shift (rules : list rule) (prio : list Z) (A : lr0) (LA : list (nat * nat * nat))
+        (q : nat) (X : symbol) (r : rule) :
+  assoc_sym X (row rules prio A LA q) = Some (Reduce r) ->
+  trans A q X = None /\ exists s i, X = T s /\ r = rule_at rules i /\ In s (la_terms LA q) /\ decide prio (la_rules LA q s) = Use i.
+Proof. exact (reduce_only_without_shift rules prio A LA q X r). Qed.
+Print Assumptions C02_reduce_only_without_shift.
+
+(* reduce/reduce: the rule used for a look-ahead terminal is the one with STRICTLY greatest
+   priority among the competing rules; there is a collision iff no such rule exists *)
+Theorem C02_rr_resolution (prio : list Z) (rs : list nat) :
+  NoDup rs -> rs <> [] ->
+  (forall r, decide prio rs = Use r <-> strict_max prio rs r) /\
+      (decide prio rs = Collision <-> ~ exists r, strict_max prio rs r).
+Proof. exact (fun ND NE => conj (fun r => decide_use prio rs r ND NE) (decide_collision prio rs ND NE)). Qed.
+Print Assumptions C02_rr_resolution.
+
+(* GrammarError (AConflict) iff some state has a look-ahead terminal with competing rules and
+   no strict priority winner; otherwise the table is built and every look-ahead has a winner *)
+Theorem C02_conflict_iff (rules : list rule) (prio : list Z) (roots : list nat) (tEND fuel : nat) :
+  match compute_lalr rules prio roots tEND fuel with
+  | AConflict A rel LA cs =>
+      cs <> [] /\ LA = la_triples rel /\
+      forall q s rs, In (q, s, rs) cs <->
+        q < nstates A /\ In s (la_terms LA q) /\ rs = la_rules LA q s /\ ~ exists r, strict_max prio rs r
+  | ATable A rel LA R =>
+      LA = la_triples rel /\ R = table_rows rules prio A LA /\
+      forall q s, q < nstates A -> In s (la_terms LA q) -> exists r, strict_max prio (la_rules LA q s) r
+  | AFuel => True
+  end.
+Proof. exact (conflict_iff rules prio roots tEND fuel). Qed.
+Print Assumptions C02_conflict_iff.
+
+(* For EVERY grammar: whenever the model of lalr_analysis.py builds a table (no collision,
+   any number of shift/reduce or priority-resolved reduce/reduce conflicts), that table with
+   the model's item sets satisfies the certificate ... *)
+Theorem C02_model_table_wf (rules : list rule) (prio : list Z) (roots : list nat) (tEND fuel : nat)
+        (A : lr0) (rel : relations) (LA : list (nat * nat * nat)) (R : rows)
+        (i r0 rootnt start qe : nat) :
+  compute_lalr rules prio roots tEND fuel = ATable A rel LA R ->
+  NoDup roots -> (forall r, In r roots -> r < length rules) ->
+  nth_error roots i = Some r0 -> rule_at rules r0 = mkRule rootnt [NT start] ->
+  (forall r, In r rules -> ~ In (NT rootnt) (rhs r)) ->
+  end_state rules roots A i = Some qe ->
+  wf_items rules (model_ptable R i qe) start (model_items rules A).
+Proof. exact (model_wf_items rules prio roots tEND fuel A rel LA R). Qed.
+Print Assumptions C02_model_table_wf.
+
+(* ... hence the model driver on the model table accepts only sentences of the user's
+   grammar G (single start symbol, lark's rule order G ++ [$root -> start]). *)
+Theorem C02_model_table_sound (G : grammar) (prio : list Z) (rootnt start tEND fuel : nat)
+        (A : lr0) (rel : relations) (LA : list (nat * nat * nat)) (R : rows) (qe fuel' : nat)
+        (w : list nat) (t : dtree nat) :
+  compute_lalr (G ++ [mkRule rootnt [NT start]]) prio [length G] tEND fuel = ATable A rel LA R ->
+  (forall r, In r G -> ~ In (NT rootnt) (rhs r)) -> start <> rootnt ->
+  end_state (G ++ [mkRule rootnt [NT start]]) [length G] A 0 = Some qe ->
+  parse nat (fun k => k) (ptable_of_rows R 0 qe) fuel' w tEND = Accepted t ->
+  yield nat t = w /\ derives G nat (tmatch nat (fun k => k)) [NT start] w.
+Proof. exact (model_table_sound_user G prio rootnt start tEND fuel A rel LA R qe fuel' w t). Qed.
+Print Assumptions C02_model_table_sound.
+
+(* Non-vacuity: the grammar of finding F13 (LALR(1), shared core {b: B., e2: B.}):
+     start: a E | c | Y e2 D    a: Y b    c: Y a D    b: B    e2: B
+   terminals $END=0 E=1 Y=2 D=3 B=4; non-terminals start=0 a=1 c=2 b=3 e2=4 $root=5.
+   The model builds a table without collision, the table with the model's own item sets
+   passes the certificate, "y b d" is accepted with a derivation tree of that yield, "y d" is
+   rejected with nothing consumed beyond "y", and the state after "y b" reduces b on E and e2 on D. *)
+Definition ex_rules : list rule :=
+  [ mkRule 0 [NT 1; T 1]; mkRule 0 [NT 2]; mkRule 0 [T 2; NT 4; T 3]; mkRule 1 [T 2; NT 3];
+    mkRule 2 [T 2; NT 1; T 3]; mkRule 3 [T 4]; mkRule 4 [T 4]; mkRule 5 [NT 0] ].
+
+Example C02_example :
+  match compute_lalr ex_rules (repeat 0%Z 8) [7] 0 100 with
+  | ATable A rel LA R =>
+      match end_state ex_rules [7] A 0 with
+      | Some qe =>
+          check_table (firstn 7 ex_rules) R 0 qe 0 (items_annot ex_rules A) = true /\
+          (exists t, parse nat (fun k => k) (ptable_of_rows R 0 qe) 50 [2; 4; 3] 0 = Accepted t /\
+                     yield nat t = [2; 4; 3]) /\
+          (exists c, feed_all nat (fun k => k) (ptable_of_rows R 0 qe) 50 (init_config (ptable_of_rows R 0 qe)) [2; 3]
+                     = Unexpected c /\ consumed nat (vstack c) = [2]) /\
+          (exists c, feed_all nat (fun k => k) (ptable_of_rows R 0 qe) 50 (init_config (ptable_of_rows R 0 qe)) [2; 4]
+                     = Shifted c /\
+                     rows_action R (hd 0 (sstack c)) (T 1) = Some (Reduce (mkRule 3 [T 4])) /\
+                     rows_action R (hd 0 (sstack c)) (T 3) = Some (Reduce (mkRule 4 [T 4])) /\
+                     rows_action R (hd 0 (sstack c)) (T 0) = None) /\
+          length (kernels A) >= 10
+      | None => False
+      end
+  | _ => False
+  end.
+Proof. vm_compute. repeat split; try reflexivity; try (eexists; repeat split; reflexivity); repeat constructor. Qed.
